@@ -1274,3 +1274,126 @@ func softenUndecided(l []Ob) []Ob {
 	}
 	return out
 }
+
+// ---------------------------------------------------------------- OPS6
+
+// OPS6: an operand that refers to another field - a query.Field(name) value or
+// a "$name" string - is replaced by doc.Get(name), whether or not the document
+// has that field (an absent field reads as nil); any other operand is used as
+// it is. The resolver (the function of package query taking the document and
+// the operand and returning the value to compare with) is abstractly evaluated
+// for the three operand shapes, with Document.Has left undecided.
+func ruleOPS6(c *Ctx) []Ob {
+	o := newObs(c, "OPS6")
+	getM := c.lookupMethod("document", "Document", "Get")
+	var resolver *ssa.Function
+	for _, fn := range c.LibFuncs {
+		if c.pkgRel(fn) != "query" || fn.Parent() != nil || len(fn.Params) != 2 || fn.Signature.Results().Len() != 1 {
+			continue
+		}
+		if !c.isDocPtr(fn.Params[0].Type()) {
+			continue
+		}
+		if _, ok := fn.Params[1].Type().Underlying().(*types.Interface); !ok {
+			continue
+		}
+		if _, ok := fn.Signature.Results().At(0).Type().Underlying().(*types.Interface); !ok {
+			continue
+		}
+		calls := false
+		allCalls(fn, func(ci ssa.CallInstruction) {
+			if g := staticCallee(ci); g != nil && getM != nil && c.declared(g) == getM {
+				calls = true
+			}
+		})
+		if calls {
+			resolver = fn
+		}
+	}
+	ft := c.libType("query", "field")
+	if resolver == nil || ft == nil || getM == nil {
+		o.add(UNDECIDED, "resolver", "-", "operand resolver (func(*Document, interface{}) interface{} in package query calling Document.Get) or the field-reference type not found")
+		return softenUndecided(o.list)
+	}
+	fetched := aval{K: aConst, C: constant.MakeString("doc.Get(name)")}
+	literal := "abc"
+	cases := []struct {
+		name string
+		arg  aval
+		want string // "get" | "self"
+	}{
+		{"Field(name) operand", aval{K: aTag, Tag: types.NewPointer(ft)}, "get"},
+		{"\"$name\" operand", aval{K: aTag, Tag: types.Typ[types.String], C: constant.MakeString("$name")}, "get"},
+		{"plain string operand", aval{K: aTag, Tag: types.Typ[types.String], C: constant.MakeString(literal)}, "self"},
+		{"numeric operand", aval{K: aTag, Tag: types.Typ[types.Int64], C: constant.MakeInt64(7)}, "self"},
+	}
+	for _, tc := range cases {
+		tc := tc
+		te := c.newTagEval()
+		te.callHookEnv = func(call *ssa.Call, val func(ssa.Value) aval) ([]aval, bool) {
+			if g := staticCallee(call); g != nil && c.declared(g) == getM {
+				return []aval{fetched}, true
+			}
+			cc := call.Common()
+			strArg := func(i int) (string, bool) {
+				a := val(cc.Args[i])
+				if a.C != nil && a.C.Kind() == constant.String {
+					return constant.StringVal(a.C), true
+				}
+				return "", false
+			}
+			switch calleeFullName(call) {
+			case "strings.HasPrefix":
+				if a, ok := strArg(0); ok {
+					if b, ok := strArg(1); ok {
+						return []aval{boolConst(strings.HasPrefix(a, b))}, true
+					}
+				}
+			case "strings.TrimLeft", "strings.TrimPrefix":
+				if a, ok := strArg(0); ok {
+					if b, ok := strArg(1); ok {
+						r := strings.TrimPrefix(a, b)
+						if calleeFullName(call) == "strings.TrimLeft" {
+							r = strings.TrimLeft(a, b)
+						}
+						return []aval{{K: aConst, C: constant.MakeString(r)}}, true
+					}
+				}
+			}
+			return nil, false
+		}
+		outs := te.Eval(resolver, []aval{{K: aConcrete, Tag: resolver.Params[0].Type()}, tc.arg}, 0)
+		key := c.fname(resolver) + "/" + tc.name
+		pos := relPath(c, resolver.Pos())
+		bad, undec := "", ""
+		if len(outs) == 0 {
+			undec = "no outcome"
+		}
+		for _, oc := range outs {
+			if oc.Panic {
+				bad = "panics: " + oc.Why
+				continue
+			}
+			rv := oc.Vals[0]
+			isGet := rv.K == aConst && rv.C != nil && rv.C.Kind() == constant.String && constant.StringVal(rv.C) == "doc.Get(name)"
+			isSelf := rv.String() == tc.arg.String() || (rv.K == aConst && tc.arg.C != nil && rv.C != nil && rv.C.ExactString() == tc.arg.C.ExactString())
+			switch {
+			case rv.K == aUnknown:
+				undec = "the result is not decided by the operand"
+			case tc.want == "get" && !isGet:
+				bad = "on some path the reference is not replaced by doc.Get(name) (" + rv.String() + " is compared instead): a reference to a field the document lacks must read as nil, not as the operand itself"
+			case tc.want == "self" && !isSelf:
+				bad = "a literal operand is replaced by " + rv.String()
+			}
+		}
+		switch {
+		case bad != "":
+			o.add(VIOLATED, key, pos, "%s", bad)
+		case undec != "":
+			o.add(UNDECIDED, key, pos, "%s", undec)
+		default:
+			o.add(OK, key, pos, "-> %s on every path (Document.Has left undecided)", map[string]string{"get": "doc.Get(name)", "self": "the operand itself"}[tc.want])
+		}
+	}
+	return softenUndecided(o.list)
+}
